@@ -2,6 +2,8 @@ import BddVerif.Drive.Util
 import BddVerif.Model.Ternary
 import BddVerif.Model.Sched
 import BddVerif.Gen.OpTables
+import BddVerif.Model.Expr
+import BddVerif.Model.Rename
 /-!
 Driver for C19. One case `C19.run n pool progs => seq thr again child after` is one multi-threaded
 run of the harness: `seq` = result texts of every thread's program run sequentially in the main
@@ -28,6 +30,13 @@ thread computed before) — identical to `seq` required.
 result is not a Bdd: clause lists in the order returned, sorted support, expression text, dot text,
 witnesses, counts) evaluated `reps` times in one thread, on `reps` fresh threads, and `reps` times in
 a child process: all hashes identical to those of the first evaluation required.
+`C19.names k namesA namesB queries => distinct builds`: two variable sets with groups of SIMILAR names are
+built fresh `k` times in one thread (`new`, builder, clone, `From<Vec<String>>`), `k` times inside `k`
+threads, and once shared by all threads; every query (`var_by_name`, `mk_(not_)var_by_name`,
+`safe_eval_expression`, `eval_expression_string`, `transfer_from` in both directions, over known and
+similar-but-unknown names) is asked of every build; observed = the DISTINCT results per query.
+Predicate: exactly one distinct result per query. Model: exact-match lookup in the name list
+(`ExprM.indexOfName`), `ExprM.evalExpr`, `Ren.transferFrom`; unknown name ⇒ `-` / `none` / `panic`.
 -/
 namespace B.Drive.C19
 open B B.Drive Std
@@ -115,6 +124,60 @@ def buildTable (calls : List (String × Option (List String) × String)) : Fold 
 def supportOf (A : Arr) : List Nat :=
   let vars := ((A.toList.drop 2).map (·.var)).eraseDups
   (vars.toArray.qsort (· < ·)).toList
+
+/-! ### name resolution (`C19.names`) -/
+
+def hexVal (c : Char) : Nat :=
+  if c.isDigit then c.toNat - '0'.toNat else if 'a' ≤ c && c ≤ 'f' then c.toNat - 'a'.toNat + 10
+  else if 'A' ≤ c && c ≤ 'F' then c.toNat - 'A'.toNat + 10 else 0
+
+/-- `%<hex code point>.` escapes of the case line: (output so far reversed, code point being read) -/
+def unescStep (st : List Char × Option Nat) (c : Char) : List Char × Option Nat :=
+  match st.2 with
+  | some v => if c == '.' then (Char.ofNat v :: st.1, none) else (st.1, some (16 * v + hexVal c))
+  | none => if c == '%' then (st.1, some 0) else (c :: st.1, none)
+
+def unescL (l : List Char) : List Char := (l.foldl unescStep ([], none)).1.reverse
+
+def unesc (s : String) : String := String.ofList (unescL s.toList)
+
+/-- re-escape for printing inside a verdict line (no spaces) -/
+def esc (s : String) : String :=
+  String.join (s.toList.map fun c =>
+    if Parser.isWs c || c.toNat < 32 || ",;%#/~".toList.contains c then "%" ++ String.ofList (Nat.toDigits 16 c.toNat) ++ "." else c.toString)
+
+def showOutcomeArr : Outcome Arr → String
+  | .ok A => showArr A
+  | .err _ => "none"
+  | .panic _ => "panic"
+
+/-- the model's answer to one query: exact-match lookup in the list of names -/
+def nameQuery (namesA namesB : List String) (q : String) : String :=
+  let (kind, arg) := match q.splitOn ":" with
+    | k :: rest => (k, ":".intercalate rest)
+    | [] => (q, "")
+  let la := namesA.map String.toList
+  let lb := namesB.map String.toList
+  let n := namesA.length
+  match kind with
+  | "v" => match ExprM.indexOfName la arg.toList with | some i => toString i | none => "-"
+  | "mk" => match ExprM.indexOfName la arg.toList with | some i => showArr (ExprM.mkVar n i) | none => "panic"
+  | "nmk" => match ExprM.indexOfName la arg.toList with | some i => showArr ((mkTrue n).push ⟨i, 1, 0⟩) | none => "panic"
+  | "safe" =>
+    match Parser.parse arg.toList with
+    | .ok e => match ExprM.evalExpr la e with | some A => showArr A | none => "none"
+    | .err _ => "parse-err"
+    | .panic _ => "parse-err"
+  | "evs" => showOutcomeArr (ExprM.evalStringO la arg.toList)
+  | "tr" | "trb" =>
+    let (src, tgt, lsrc) := if kind == "tr" then (namesB, namesA, lb) else (namesA, namesB, la)
+    match Parser.parse arg.toList with
+    | .ok e =>
+      match ExprM.evalExpr lsrc e with
+      | some A => showOutcomeArr (Ren.transferFrom tgt A src)
+      | none => "src-none"
+    | _ => "parse-err"
+  | _ => "unknown-query"
 
 def hashesOf (rs : List String) : String :=
   if rs.isEmpty then "~" else ".".intercalate (rs.map fun r => toString (fnv r).toNat)
@@ -210,6 +273,29 @@ def handle (key : String) (ins obs : List String) : Verdict :=
       if first.any (·.endsWith "!operand-changed") then some "operand-changed" else none]
     let sz := ((pool.headD "").splitOn "|").length - 2
     { agree, model, fail, nontrivial := sz > 2, tags := ["rep", s!"rep-n{_n}"] }
+  | "C19.names", [kS, aS, bS, qS], [obsS, buildsS] =>
+    let namesA := (splitList "," aS).map unesc
+    let namesB := (splitList "," bS).map unesc
+    let queries := (splitList ";" qS).map unesc
+    let obs := (splitList ";" obsS).map (·.splitOn "#")
+    let k := kS.toNat?.getD 0
+    if obs.length != queries.length then
+      { agree := false, model := "shape", fail := some "shape", nontrivial := false } else
+    let modelRes := queries.map (nameQuery namesA namesB)
+    let agree := (modelRes.zip obs).all fun (m, o) => o == [m]
+    let model := if agree then "" else
+      match (queries.zip (modelRes.zip obs)).find? fun (_, m, o) => o != [m] with
+      | some (q, m, _) => (esc q) ++ "->" ++ m
+      | none => "?"
+    let fail := firstFail [
+      match (queries.zip obs).find? fun (_, o) => o.length != 1 with
+      | some (q, o) => some s!"name-resolution-not-deterministic:{esc q}:{o.length}-distinct-results"
+      | none => none,
+      if buildsS.toNat?.getD 0 ≥ 3 * k + 0 && k ≥ 16 then none else some "too-few-fresh-builds"]
+    let similarGroups := namesA.any fun x => namesA.any fun y => x != y && (x.toLower == y.toLower || x.startsWith y)
+    { agree, model, fail, nontrivial := namesA.length ≥ 2,
+      tags := ["names", if similarGroups then "case-or-prefix-similar" else "other-similar",
+        if modelRes.any (· == "-") then "has-unknown" else "all-known"] }
   | _, _, _ => Verdict.bad ("key " ++ key)
 
 end B.Drive.C19
